@@ -57,6 +57,11 @@ def small_scope(table, quick):
                 '(/ 4 2)', '(/ 5 2.5)', '(% 5 3)', '(% 7.5 5.5)', '(sum [1, 1])', '(sum [0.5, 1.5])', '(size [1, 2])', '(- -2)', '(get [2] 0)', '(first [2.0])',
                 '(fold [1, 1] 0 (+ .so_far .value))', '(as_number 2)', '(parse "2")', '(parse "2.0")', '(parse "2e0")', '(ceil 2)', '(floor -0.5)', '(ceil -0.5)',
                 '(| 4 (/ . 2))', '(? true 2 3)', '(default .missing 2)', '(set "v" 2.0 :v)']
+    # bindings: an inner binding of a name hides the outer one (also one given with --set, see the check), and ends with its body
+    out += ['(set "x" 1 (set "x" 2 :x))', '(set "x" 1 (+ (set "x" 2 :x) :x))', '(set "v" 0 (map [1, 2, 3] (set "v" . (+ :v 10))))',
+            '(set "x" 1 (set "y" 2 (set "x" 3 (+ :x :y))))', '(set "a" 5 (| 7 (set "a" . (+ :a 1))))', '(set "x" "o" (concat :x (set "x" "i" :x) :x))',
+            '(define "m" 1 (define "m" 2 @m))', '(define "m" (+ . 1) (+ @m (define "m" (+ . 2) @m)))', '(set "x" 1 (define "x" 2 (+ :x @x)))',
+            '(set "x" 1 (filter [1, 2, 3] (set "x" 2 (>= . :x))))', '(fold [1, 2] 0 (set "s" .so_far (set "s" (+ :s .value) :s)))']
     for e in integral:
         out += ["(take [1, 2, 3] %s)" % e, "(range %s)" % e, "(get [1, 2, 3] %s)" % e, "(head \"abcd\" %s)" % e, "(sub [1, 2, 3, 4] 1 %s)" % e,
                 "(take_last \"abcd\" %s)" % e, "(stringify %s)" % e, "(= %s 2)" % e]
@@ -111,6 +116,8 @@ def check(tier, seed, replay=None):
         # (ii) exhaustive small scope
         for txt in small_scope(table, quick):
             items.append((X.strip(EP.parse(txt, table)), ("obj", [(X.cps("k"), ("num", "1"))]), [], [], txt))
+        for txt in ('(set "x" 2 :x)', '(+ :x (set "x" 2 :x) :x)', '(map [1, 2] (set "x" . (+ :x :y)))', '(set "y" (+ :x 1) (set "x" :y (+ :x :y)))'):
+            items.append((X.strip(EP.parse(txt, table)), ("obj", [(X.cps("k"), ("num", "1"))]), [("x", ("num", "1")), ("y", ("num", "10"))], [], txt))
         chk.notes["small_scope_tuples"] = len(items) - len(docs)
         # (iii) generated typed expressions
         for i in range(4000 if quick else 150000):
